@@ -734,8 +734,11 @@ class ServerProxy(XMLServerProxy):
         >>> # Here old headers are restored
         """
         self.__transport.push_headers(headers)
-        yield self
-        self.__transport.pop_headers(headers)
+        try:
+            yield self
+        finally:
+            # Restore the previous headers, even if the block raised an error
+            self.__transport.pop_headers(headers)
 
 
 # ------------------------------------------------------------------------------
